@@ -107,7 +107,7 @@ func VerifC08RefIdx(rows []VerifC08Row, packSum []byte, sum func([]byte) []byte)
 	big := make([]bool, n)
 	nbig := 0
 	for i := range rows {
-		if rows[i].Off > 0x7fffffff {
+		if rows[i].Off > VerifC08Off32Limit {
 			big[i] = true
 			nbig++
 		}
@@ -145,6 +145,11 @@ func VerifC08RefIdx(rows []VerifC08Row, packSum []byte, sum func([]byte) []byte)
 	out = append(out, packSum...)
 	return append(out, sum(out)...)
 }
+
+// VerifC08Off32Limit is git's off32_limit: the largest offset stored in the
+// 4-byte table. (A variable only so that the native validation of this
+// reference against `git index-pack --index-version=2,<limit>` can lower it.)
+var VerifC08Off32Limit uint64 = 0x7fffffff
 
 // verifC08FirstBytes: the fanout fill loops run over the first byte of a
 // name; the harness draws it from this list (boundaries of the table).
